@@ -77,6 +77,16 @@ def check_pair(name, on, off):
         if a != b:
             d = next(((x, y) for x, y in zip(a, b) if x != y), (len(a), len(b)))
             return {"first_difference": d}
+        # ... but an empty line is still a line: only at the very end of the text (where the bank strips) may the two
+        # outputs differ in how many there are.  The filter takes labels away, never lines.
+        a2 = [ln if ln.strip() else "" for ln in strip_labels(on)]
+        b2 = [ln if ln.strip() else "" for ln in strip_labels(off)]
+        while a2 and not a2[-1]:
+            a2.pop()
+        while b2 and not b2[-1]:
+            b2.pop()
+        if len(a2) != len(b2):
+            return {"lines_with_filter": len(a2), "lines_without": len(b2)}
         # the filter never ADDS a label: every label of the filtered text labels the same line of the unfiltered one
         def labelled(t):
             return [ln for ln in t.split("\n") if re.match(r"^\d+( |$)", ln) and _LABEL.sub("", ln, count=1).strip()]
@@ -168,7 +178,10 @@ ODD_TEXTS = ['10 F$="A\x0cB":PRINT F$\n20 REM X\x85Y\n30 DATA P\u2028Q,R\x0bS\n4
              '10 INPUT "WHO\x0c";N$\n20 A$="\x0c"+CHR$(12)\n30 IF A$="\x85" THEN 10\n',
              # the library's size tag spelled inside user literals, alone and followed by more literals on the same line
              '10 PRINT "TYPE: STRING<<>>";"!"\n20 A$=": string<<>>"+"X":B$="Q"\n30 DATA ": STRING<<>>","Z",": STRING<<>>"\n40 READ C$,D$\n50 PLAY "C":HDRAW "U1"\n',
-             '10 B$="X:STRING<<>>":PRINT B$;"A";"B"\n20 REM "\n30 A=INSTR(1,B$,": STRING<<>>"):C$=STRING$(3,"Q")\n']
+             '10 B$="X:STRING<<>>":PRINT B$;"A";"B"\n20 REM "\n30 A=INSTR(1,B$,": STRING<<>>"):C$=STRING$(3,"Q")\n',
+             # lines that hold nothing but their number (or a colon), referenced and unreferenced, first, in the middle, last
+             '10 PRINT 1\n20 :\n30\n40 PRINT 2\n50 GOTO 30\n', '5\n10 A=1\n20\n30 ::\n40 IF A=1 THEN 20\n50\n',
+             '10 :\n20 :\n30 PRINT "X"\n', '10 GOSUB 40\n20\n30 END\n40\n50 RETURN\n']
 
 
 def program_text(case):
